@@ -474,7 +474,78 @@ def rule_serialisers_total(ctx, R="C11/serialisers-total"):
     ctx.ok(R, "sinks", None, "panic sinks examined in the serialisation of soft errors: %s" % st, nontrivial=False)
 
 
+SWALLOWERS = ("ok", "into_iter", "unwrap_or", "unwrap_or_default", "unwrap_or_else", "flatten", "is_ok", "is_err", "iter", "map_or", "map_or_else", "is_ok_and", "err", "unwrap", "expect")
+# every place on the dump path where a Result is consumed by something that drops its error, with the reason that is harmless.
+# key: (function, callee, consumer)
+REVIEWED_DISCARDS = {
+    ("CrashContext>::fill_cpu_context", "pwrite_with", "expect"): "serialising into a local array of the exact size cannot fail (C02 reviewed site)",
+    ("ThreadInfoX86::fill_cpu_context", "pwrite_with", "expect"): "serialising into a local array of the exact size cannot fail (C02 reviewed site)",
+    ("dumper_cpu_info::os_information", "uname", "map_or_else"): "the OS version string falls back to a fixed text; the stream is still written",
+    ("MappingInfo::get_mapping_effective_path_name_and_version", "so_name", "ok"): "a file-based SONAME is optional: the file name is used instead",
+    ("SoVersion::parse", "parse", "unwrap_or_default"): "a non-numeric version component counts as 0",
+    ("MinidumpWriter::generate_dump", "map", "unwrap_or_default"): "the soft-error stream itself: nothing is left to report to (C11/serialisable shows it cannot fail by serialisation)",
+    ("PtraceDumper::enumerate_threads", "parse", "ok"): "a task entry that is not a number is reported as ProcessTaskEntryNotTid (C11/soft-sites `tid parse`)",
+    ("handle_data_stream::direntry_to_descriptor", "read_link", "ok"): "one descriptor whose link cannot be read (closed meanwhile) is skipped; the listing as a whole has succeeded",
+    ("handle_data_stream::direntry_to_descriptor", "write_string_to_location", "ok"): "one descriptor is skipped",
+    ("handle_data_stream::file_stat", "new", "ok"): "a /proc path never contains a NUL; the descriptor is skipped",
+    ("handle_data_stream::filename_to_fd", "parse", "ok"): "an entry of /proc/<pid>/fd that is not a number is skipped",
+    ("mappings::write", "from_process_memory_for_index", "ok"): "the SONAME is optional: the mapping's file name is used",
+    ("mappings::write", "or_else", "unwrap_or_else"): "a module whose build id cannot be read is logged and listed without an id / skipped as uninteresting (C08)",
+}
+
+
+def rule_discarded_results(ctx, R="C11/discarded-results"):
+    """error discipline on the dump path: a failure can only be reported (hard or soft) if the Result that carries it is looked at.
+    Every call whose Result is handed straight to something that drops the error (`.ok()`, `.into_iter().flatten()`, `unwrap_or*`,
+    `map_or*`, ...) must be one of the reviewed places; anything else makes a failed step look like an empty success."""
+    prog = ctx.prog
+    reach = prog.reachable(["linux::minidump_writer::MinidumpWriter::dump"])
+    n_calls = n_sw = 0
+    seen = set()
+    for f in sorted(reach):
+        if "_serde" in f:
+            continue
+        for b in prog.by_short.get(f, ()):
+            o = None
+            for bi, t in b.calls():
+                d = t.get("dest")
+                if not d or d["proj"]:
+                    continue
+                ty = b.locals[d["l"]]["ty"]
+                if not (ty.startswith("std::result::Result<") or ty.startswith("std::io::Result")):
+                    continue
+                n_calls += 1
+                o = o or Origin(b)
+                me = nosite(o.call_expr(bi))
+                for bj, t2 in b.calls():
+                    if bj == bi:
+                        continue
+                    a = o.call_args(bj)
+                    x = a[0] if a else None
+                    while x is not None and x[0] == "conv":
+                        x = x[1]
+                    if x is None or nosite(x) != me:
+                        continue
+                    cons = (CalleeView(t2["callee"]).short or "?").split("::")[-1]
+                    if cons not in SWALLOWERS:
+                        continue
+                    n_sw += 1
+                    fk = "::".join(f.split("::{closure")[0].split("::")[-2:])
+                    key = (fk, (CalleeView(t["callee"]).short or "?").split("::")[-1], cons)
+                    why = REVIEWED_DISCARDS.get(key)
+                    if key in seen and why:
+                        continue
+                    seen.add(key)
+                    ctx.check(why is not None, R, key, b.where(bi), "reviewed: %s" % why,
+                              "the Result of %s is consumed by %s() in %s: its error is dropped, a failure here looks like an empty success and is reported nowhere" % (key[1], cons, fk))
+    ctx.floor(R, "Result-returning calls on the dump path", n_calls, 200)
+    ctx.floor(R, "reviewed discards found", n_sw, 13)
+    stale = [k for k in REVIEWED_DISCARDS if k not in seen]
+    ctx.check(not stale, R, "table-current", None, "every reviewed entry still exists", "reviewed entries no longer match any code: %s" % stale, nontrivial=False)
+
+
 def run(ctx):
+    rule_discarded_results(ctx)
     rule_soft_errors_serialisable(ctx)
     rule_serialisers_total(ctx)
     rule_soft_sites(ctx)
